@@ -173,6 +173,36 @@ harness! {
     }
 }
 
+// public wrapper: a positive finite weight always reaches the digest (complete, loop-free)
+harness! {
+    fn c16_td_insert_weighted_wrapper() {
+        let mut t = TDigest::new(K0::new(10.), 5);
+        let x: f64 = any();
+        let w: f64 = any();
+        assume(x.is_finite() && w.is_finite() && w > 0.);
+        t.insert_weighted(x, w);
+        let inner = t.inner.borrow();
+        assert!(inner.backlog.len() == 1 && inner.backlog[0].count == w && inner.backlog[0].sum == x * w, "C16 every positive weight is accounted, however small");
+        assert!(inner.min == x && inner.max == x && inner.n_samples == 1, "C16 min()/max() are exactly the inserted value");
+        drop(inner);
+        assert!(!t.is_empty(), "C16 is_empty is false once a positive weight was inserted");
+        assert!(t.min() == x && t.max() == x, "C16 min()/max() wrappers");
+    }
+}
+
+// public wrapper on an empty digest: NaN / 0 for every q and x (complete, loop-free)
+harness! {
+    fn c15_td_empty_wrapper() {
+        let t = TDigest::new(K0::new(10.), 5);
+        let q: f64 = any();
+        let x: f64 = any();
+        assume(q >= 0. && q <= 1. && !x.is_nan());
+        assert!(t.quantile(q).is_nan(), "C15 empty digest: quantile is NaN for every q including 0 and 1");
+        assert!(t.cdf(x) == 0., "C15 empty digest: cdf is 0");
+        assert!(t.is_empty() && t.count() == 0., "C16 empty digest");
+    }
+}
+
 /// adversarial scale function: f and f_inv return arbitrary values on every call, so every merge
 /// schedule (which neighbours get fused) is explored
 #[derive(Clone, Debug)]
@@ -256,11 +286,11 @@ harness! {
         d.backlog.push(Centroid { sum: 1., count: 1. });
         d.clear();
         let f = TDigestInner::new(K0::new(10.), 100);
-        assert!(d.centroids.len() == f.centroids.len() && d.backlog.len() == f.backlog.len(), "C19 clear empties centroids and backlog");
+        assert!(d.centroids.len() == f.centroids.len() && d.backlog.len() == f.backlog.len(), "C16 C19 clear empties centroids and backlog");
         assert!(d.min == f.min && d.max == f.max, "C19 clear resets min/max");
         assert!(d.n_samples == f.n_samples, "C19 clear resets the sample counter the K2/K3 scale functions read");
         assert!(d.max_backlog_size == f.max_backlog_size, "C19 clear keeps the configuration");
-        assert!(d.is_empty(), "C19 cleared digest is empty");
+        assert!(d.is_empty(), "C16 C19 cleared digest is empty");
     }
 }
 
